@@ -83,9 +83,12 @@ def main(argv):
                 r["status"] = "known"
                 known_more = known_more + 1
                 continue
-            if reproduced_kinds.get(kk, 0) >= 1 and tried_kinds.get(kk, 0) >= 3 and km is None:
-                # further witnesses of a harness that already has a reproduced violation: not replayed again
+            if km is None and ((reproduced_kinds.get(kk, 0) >= 1 and tried_kinds.get(kk, 0) >= 3) or tried_kinds.get(kk, 0) >= 6):
+                # further witnesses of a harness that already has a reproduced violation (or whose first six
+                # witnesses did not reproduce): not replayed again
                 r["status"] = "sat-unreplayed"
+                if reproduced_kinds.get(kk, 0) == 0:
+                    inconclusive.append((r, "sat, not replayed (replay budget of this harness exhausted)"))
                 continue
             tried_kinds[kk] = tried_kinds.get(kk, 0) + 1
             path = core.write_replay(prop, r["id"], rp["kind"], rp["inputs"], {"witness": r.get("witness"), "expected": rp.get("expected")})
